@@ -98,20 +98,24 @@ def save_model_with_external_data(
         )
     destination_path = pathlib.Path(model_path)
     data_path = f"{destination_path.name}.data"
-    # Tensors that already live in the destination data file cannot stay valid once
-    # that file is rewritten (ir.save would invalidate them): refuse before writing.
+    # Tensors that already live in the destination data file - or in the file at
+    # model_path itself - cannot stay valid once that file is rewritten (ir.save would
+    # invalidate them, onnx.save would overwrite their data): refuse before writing.
     data_file = os.path.join(os.path.dirname(os.fspath(model_path)), data_path)
     tensors_in_destination = [
         value.name
         for graph in all_graphs
         for value in graph.initializers.values()
         if isinstance(value.const_value, ir.ExternalTensor)
-        and _is_same_file(value.const_value.path, data_file)
+        and (
+            _is_same_file(value.const_value.path, data_file)
+            or _is_same_file(value.const_value.path, model_path)
+        )
     ]
     if tensors_in_destination:
         raise ValueError(
-            f"The initializers {tensors_in_destination} are stored in the destination data file "
-            f"'{data_file}', which would be overwritten. Load them into memory first "
+            f"The initializers {tensors_in_destination} are stored in a destination file "
+            f"('{data_file}' or '{os.fspath(model_path)}'), which would be overwritten. Load them into memory first "
             "(ir.external_data.load_to_model) or save the model under a different name."
         )
 
